@@ -1,11 +1,26 @@
 #!/bin/bash
-# Full validation of the checks themselves (takes a few hours on 16 cores):
-#   1. every quick check at 5 seeds on the unchanged tree must be quiet      (tools/sweep.sh)
-#   2. every behaviour-preserving refactoring must leave the checks quiet    (tools/refactors.json)
-#   3. every hand-written mutation must be caught                            (tools/mutations.json)
-#   4. every independently seeded change is run against its own check       (seeded/*/)
-cd "$(dirname "$0")/.."
-echo "== sweep"; tools/sweep.sh
-echo "== refactors"; tools/mutants.py --file refactors.json
-echo "== mutants"; tools/mutants.py
-echo "== seeds own check"; tools/seeded.py run
+# Full validation of the checks themselves (2-3 hours on 16 cores).  Runs from an rsync snapshot of /verif under /tmp so that
+# /verif can be edited meanwhile and /verif/evidence is never touched; results (seeded/*/meta.json, refactors/*/meta.json,
+# tools/*_results.json) are left in the snapshot and copied back by hand once they have been looked at.
+#   1. every quick check at 5 seeds on the unchanged tree must be quiet                          (tools/sweep.sh)
+#   2. every independently written behaviour-preserving refactoring must leave the checks quiet  (refactors/*, checks chosen
+#      by the files the patch touches; pass ALL=1 to run all 19 against each)
+#   3. every hand-written refactoring must leave the checks quiet                                (tools/refactors.json)
+#   4. every hand-written mutation must be caught                                                (tools/mutations.json)
+#   5. every independently seeded change is run against the quick check of its own property      (seeded/*)
+# Logs: /tmp/validate_*.log; done marker /tmp/validate_done.
+set -u
+SRC="$(cd "$(dirname "$0")/.." && pwd)"
+SNAP=${SNAP:-/tmp/verif-validate}
+rm -rf "$SNAP"; rsync -a --exclude .git --exclude replays "$SRC"/ "$SNAP"/
+cd "$SNAP" || exit 2
+rm -f /tmp/validate_done
+echo "== sweep";        SEEDS="${SEEDS:-1 2 3 7 42}" tools/sweep.sh > /tmp/validate_sweep.log 2>&1
+PROPS_ARG="--props touched"; [ -n "${ALL:-}" ] && PROPS_ARG=""
+echo "== refactors";    ls "$SRC"/refactors | xargs -P 4 -I{} bash -c 'p=$(echo {} | sed -E "s/R-(C[0-9]+)-.*/\1/;s/R-own.*/C02/"); rm -rf refactors/{}; tools/seeded.py refactor $p {} '"$SRC"'/refactors/{} '"$PROPS_ARG" > /tmp/validate_refactors.log 2>&1
+echo "== hand refactors"; tools/mutants.py --file refactors.json > /tmp/validate_handrf.log 2>&1
+echo "== mutants";      tools/mutants.py > /tmp/validate_mutants.log 2>&1
+echo "== seeds";        ls seeded | xargs -P 4 -I{} tools/seeded.py run {} > /tmp/validate_seeds.log 2>&1
+echo done > /tmp/validate_done
+grep -c "ALL QUIET" /tmp/validate_refactors.log; grep ALARMS /tmp/validate_refactors.log
+grep -E "^(caught|quiet)" /tmp/validate_seeds.log | awk '{print $1}' | sort | uniq -c
